@@ -304,9 +304,10 @@ func (p *McGroupStatusAnsPayload) UnmarshalBinary(data []byte) error {
 	}
 
 	var ansGroupMaskCount int
+	p.Items = nil
 	for i := range p.Status.AnsGroupMask {
-		if data[0]&(1<<uint8(i)) != 0 {
-			p.Status.AnsGroupMask[i] = true
+		p.Status.AnsGroupMask[i] = data[0]&(1<<uint8(i)) != 0
+		if p.Status.AnsGroupMask[i] {
 			ansGroupMaskCount++
 		}
 	}
